@@ -28,6 +28,12 @@ def _analyze_box(cr):
                      "name (or the name it computes), the source line, the anchor mark and the signal (contract evaluated on the real format_entity_description)")
 
 
+    bargs = c20.build_debug_info_arg_sets()
+    cr.bounded_check(run_contract_enum, "debug-info-box", c20.build_debug_info, bargs,
+                     f"{len(bargs)} (node, usage entry) pairs over constant / arithmetic / decider / memory nodes: the placement's record names the declared name (else the usage label, the "
+                     "node label, the id), the source line (else the expression context's), the resolved signal, the operation (contract evaluated on the real EntityPlacer._build_debug_info)")
+
+
 def run(tier):
     progs = gen.c20_scope(tier)
     return run_e2e_property("C20", tier, EXPLANATION, "DESIGN §4 C20",
